@@ -522,6 +522,24 @@ static bool syntactic_laurent(const Basic &e, bool &xy_only)
         return pw(*down_cast<const Pow &>(e).get_base(), *down_cast<const Pow &>(e).get_exp());
     return false;
 }
+// which expansion routine the top node of the input selects (part of the signature of value/canonical-form violations)
+static std::string top_class(const Basic &e)
+{
+    if (is_a<Pow>(e)) {
+        const Pow &p = down_cast<const Pow &>(e);
+        if (!is_a<Add>(*p.get_base()))
+            return "Pow(other)";
+        if (!is_a<Integer>(*p.get_exp()))
+            return "Pow(Add,non-integer)";
+        const integer_class &n = down_cast<const Integer &>(*p.get_exp()).as_integer_class();
+        return n == 2 ? "Pow(Add,2)" : n > 2 ? "Pow(Add,n>2)" : "Pow(Add,n<0)";
+    }
+    if (is_a<Mul>(e))
+        return "Mul";
+    if (is_a<Add>(e))
+        return "Add";
+    return "atom";
+}
 static bool contains_nonfinite(const Basic &e)
 {
     if (is_a<Infty>(e) || is_a<NaN>(e))
@@ -686,7 +704,7 @@ static void check_expand(const RCP<const Basic> &e, const Model &m, const std::s
     }
     c.count(m.laurent && back.laurent ? K_EXACT_LAURENT : K_EXACT_FRACTION);
     if (!m_equal(back, m)) {
-        c.violation("expand:value:" + icls, head + ": read back as " + model_str(back) + " but the exact model of the input is " + model_str(m));
+        c.violation("expand:value:" + icls + ":top=" + top_class(*e), head + ": read back as " + model_str(back) + " but the exact model of the input is " + model_str(m));
         return;
     }
     // 2. completeness
@@ -716,7 +734,8 @@ static void check_expand(const RCP<const Basic> &e, const Model &m, const std::s
         if (xy_only)
             c.count(K_CANON_STRICT);
         if (want != kr) {
-            c.violation(std::string("expand:not-canonical:") + (xy_only ? "polynomial-in-symbols" : "polynomial-with-f-or-sqrt2"),
+            c.violation(std::string("expand:not-canonical:") + (xy_only ? "polynomial-in-symbols" : "polynomial-with-f-or-sqrt2") + ":top="
+                            + top_class(*e),
                         head + ": the canonical form of the model " + model_str(m) + " has key " + want);
             return;
         }
